@@ -101,3 +101,58 @@ def short(name):
     return '?'
   parts = name.split('::')
   return '::'.join(parts[-2:])
+
+
+def success_return_blocks(body):
+  """blocks in which the return place _0 receives a non-error value
+  (anything but an `Err(..)` aggregate or a `from_residual` call)"""
+  out = []
+  live = body.reachable_from(0)
+  for d in body.defs().get(0, []):
+    if d['bb'] not in live:
+      continue
+    if d['kind'] == 'assign':
+      rv = d['rv']
+      if rv['k'] == 'agg' and rv.get('variant') == 'Err':
+        continue
+      out.append(d['bb'])
+    elif d['kind'] == 'call':
+      c = d['call']
+      if c.is_('re:FromResidual.*::from_residual$'):
+        continue
+      out.append(d['bb'])
+  return sorted(set(out))
+
+
+def table_writers(F, T):
+  """set of raw body paths that (transitively) write an index table"""
+  direct = set()
+  for c, kind, tabs in T.writes():
+    direct.add(c.body.path)
+  # reverse closure over callers
+  out = set(direct)
+  work = list(direct)
+  while work:
+    x = work.pop()
+    for y in F.callers(x):
+      if y in F.bodies and y not in out:
+        out.add(y)
+        work.append(y)
+  return out, direct
+
+
+def reaches_avoiding(body, a, b, avoid):
+  """is there a path a -> b (length >= 0) that does not pass through any block in `avoid` (a itself may be in avoid only if a == b is not wanted)"""
+  if a in avoid:
+    return False
+  seen = {a}
+  work = [a]
+  while work:
+    x = work.pop()
+    if x == b:
+      return True
+    for s in body.succ(x):
+      if s not in seen and s not in avoid:
+        seen.add(s)
+        work.append(s)
+  return False
